@@ -190,6 +190,89 @@ func hostileDocs(st *Std) {
 	)
 }
 
+// addFollowUp appends a clean repetition of the scenario's first request (a fresh activity id), started after every
+// other request has returned: whatever the hostile input left behind (a held lock above all) must not keep a later,
+// well-formed request from returning.
+func addFollowUp(sp *RunSpec, clean ReqSpec) {
+	f := clean
+	f.ID = clean.ID + "-again"
+	f.After = nil
+	for _, rq := range sp.Requests {
+		f.After = append(f.After, rq.ID)
+	}
+	if bm, err := parseJ(f.Body); err == nil && f.Body != nil {
+		if id, ok := bm["id"].(string); ok {
+			bm["id"] = id + "-again"
+			f.Body = mustJSON(bm)
+		}
+	}
+	sp.Requests = append(sp.Requests, f)
+	sp.Gen += " +followup"
+}
+
+// aliasBody rewrites a compact ActivityStreams document into the equally valid spelling with a vocabulary prefix:
+// "@context" maps the namespace to an alias and every term (member names, type names) carries it.
+func aliasBody(b []byte, alias string) ([]byte, bool) {
+	m, err := parseJ(b)
+	if err != nil {
+		return nil, false
+	}
+	var walk func(v interface{}, top bool) interface{}
+	walk = func(v interface{}, top bool) interface{} {
+		switch x := v.(type) {
+		case map[string]interface{}:
+			out := map[string]interface{}{}
+			for k, e := range x {
+				switch {
+				case k == "@context":
+					continue
+				case k == "id" || k == "type":
+					// JSON-LD keywords keep their name; type VALUES are terms
+					if k == "type" {
+						switch tv := e.(type) {
+						case string:
+							e = alias + ":" + tv
+						case []interface{}:
+							var l []interface{}
+							for _, t := range tv {
+								if ts, ok := t.(string); ok {
+									l = append(l, alias+":"+ts)
+								} else {
+									l = append(l, t)
+								}
+							}
+							e = l
+						}
+					}
+					out[k] = e
+				case strings.Contains(k, ":") || strings.HasPrefix(k, "@"):
+					out[k] = walk(e, false)
+				default:
+					out[alias+":"+k] = walk(e, false)
+				}
+			}
+			if top {
+				out["@context"] = map[string]interface{}{asCtx: alias}
+			}
+			return out
+		case []interface{}:
+			var l []interface{}
+			for _, e := range x {
+				l = append(l, walk(e, false))
+			}
+			if l == nil {
+				l = []interface{}{}
+			}
+			return l
+		}
+		return v
+	}
+	if _, ok := m["@context"].(string); !ok {
+		return nil, false
+	}
+	return mustJSON(walk(map[string]interface{}(m), true)), true
+}
+
 func driveC11(c *DriveCtx, r *Rng, k int) {
 	cp := corpus("C11")
 	sc := cp[k%len(cp)]
@@ -273,8 +356,56 @@ func driveC11(c *DriveCtx, r *Rng, k int) {
 			c.Exec(sp)
 			return
 		}
+		cleanRq := *rq
 		nb, what := mutateSeeded(rq.Body, r.U64())
-		if r.Intn(6) == 0 {
+		if r.Intn(4) == 0 {
+			// the well-formed body in its prefixed spelling, objects doubled now and then (a legal but rarely seen shape)
+			if bm, err := parseJ(rq.Body); err == nil {
+				if o, ok := bm["object"]; ok && r.Bool() {
+					if _, isl := o.([]interface{}); !isl {
+						o2 := o
+						if om, ok := o.(map[string]interface{}); ok {
+							// the second object is another stored value of the same type where there is one
+							for _, d := range sp.World.Servers[0].Docs {
+								if dm, err := parseJ(d.Doc); err == nil && dm["type"] == om["type"] && d.ID != om["id"] {
+									c2 := J{}
+									for k, v := range om {
+										c2[k] = v
+									}
+									c2["id"] = d.ID
+									o2 = map[string]interface{}(c2)
+									break
+								}
+							}
+						}
+						bm["object"] = []interface{}{o, o2}
+					}
+				}
+				al := Pick(r, []string{"as", "a", "x"})
+				if ab, ok := aliasBody(mustJSON(bm), al); ok {
+					nb, what = ab, "aliased"
+					if r.Bool() {
+						// the stored objects were received in that spelling too
+						docs := sp.World.Servers[0].Docs
+						for i := range docs {
+							if dm, err := parseJ(docs[i].Doc); err == nil {
+								switch dm["type"] {
+								case "Note", "Article", "Like", "Follow", "Create", "Document", "Image":
+									if ad, ok := aliasBody(docs[i].Doc, al); ok {
+										docs[i].Doc = ad
+									}
+								}
+							}
+						}
+						what += "+store"
+					}
+					if r.Intn(3) == 0 {
+						nb, what = mutateSeeded(ab, r.U64())
+						what = "aliased+" + what
+					}
+				}
+			}
+		} else if r.Intn(6) == 0 {
 			if bm, err := parseJ(rq.Body); err == nil {
 				bm["id"] = Pick(r, []interface{}{7, "", nil, J{}, []interface{}{}, "/relative", true})
 				nb, what = mustJSON(bm), "id:hostile"
@@ -294,6 +425,9 @@ func driveC11(c *DriveCtx, r *Rng, k int) {
 			}
 		}
 		sp.Gen += " body:" + what
+		if r.Intn(3) == 0 {
+			addFollowUp(sp, cleanRq)
+		}
 		res := c.Exec(sp)
 		// the same hostile body while one seam call fails (two things going wrong at once)
 		if r.Intn(3) == 0 && len(res.Sim.Sites) > 0 {
@@ -321,6 +455,9 @@ func driveC11(c *DriveCtx, r *Rng, k int) {
 			site := Pick(r, sites)
 			sp.Faults = []FaultSpec{{Site: site + "|value", Kind: "doc_corrupt", Arg: fmt.Sprint(r.U64())}}
 			sp.Gen += " doc@" + site
+			if r.Intn(3) == 0 {
+				addFollowUp(sp, clean.Requests[0])
+			}
 			c.Exec(sp)
 		}
 	default: // a stored value
@@ -341,6 +478,9 @@ func driveC11(c *DriveCtx, r *Rng, k int) {
 			site := Pick(r, sites)
 			sp.Faults = []FaultSpec{{Site: site + "|value", Kind: "store_corrupt", Arg: fmt.Sprint(r.U64())}}
 			sp.Gen += " store@" + site
+			if r.Bool() {
+				addFollowUp(sp, clean.Requests[0])
+			}
 			c.Exec(sp)
 		}
 	}
@@ -349,7 +489,7 @@ func driveC11(c *DriveCtx, r *Rng, k int) {
 func init() {
 	register(&PropDef{
 		ID: "C11", Level: "exploration", Engine: "fedsim",
-		Rule: "case = one scenario of the side-effect corpus (every entry point, every handled activity type, delivery, forwarding, GETs) with one hostile input: a structure-aware mutation (each member down to depth 4 removed, nulled, emptied to [] / {} / \"\", replaced by a number, boolean, nested array, array wrap, object without id, relative reference, or the IRI of a missing / ill-typed / incomplete / non-object document) or raw byte damage (truncation, bit flip, whole-document replacement) applied to the request body, to a document returned by Transport.Dereference, or to a value returned by Database.Get/Followers/Following/Liked/GetInbox/GetOutbox; plus per-run knobs (missing stored values answered by error or (nil, nil), Social-only / Federating-only actors, small recursion limits). Oracle = recover() around every task (any panic unwinding through the library is a violation), deadlock detection and a 20000-step budget ('fails to return'). distinct = distinct (scenario incl. mutation, event sequence).",
+		Rule: "case = one scenario of the side-effect corpus (every entry point, every handled activity type, delivery, forwarding, GETs) with one hostile input: a structure-aware mutation (each member down to depth 4 removed, nulled, emptied to [] / {} / \"\", replaced by a number, boolean, nested array, array wrap, object without id, relative reference, or the IRI of a missing / ill-typed / incomplete / non-object document) or raw byte damage (truncation, bit flip, whole-document replacement) applied to the request body, to a document returned by Transport.Dereference, or to a value returned by Database.Get/Followers/Following/Liked/GetInbox/GetOutbox; the well-formed body in its vocabulary-prefixed spelling (@context maps the namespace to an alias, alias:member, objects doubled), alone or further mutated; a clean follow-up request after the hostile one in a third to a half of the runs (what the hostile input left behind must not keep a later request from returning); plus per-run knobs (missing stored values answered by error or (nil, nil), Social-only / Federating-only actors, small recursion limits). Oracle = recover() around every task (any panic unwinding through the library is a violation), deadlock detection and a 20000-step budget ('fails to return'). distinct = distinct (scenario incl. mutation, event sequence).",
 		QuickCases: 6000, QuickBudgetS: 60, ThoroughBudgetS: 600,
 		Drive: driveC11,
 		Assumptions: []string{"coverage-guided fuzzing of the JSON decoder on arbitrary bytes is another technique and is not part of this check: the decoder is reached only through the three seams (request body, dereferenced document, stored value)",
